@@ -206,7 +206,12 @@ def gen_sentence(rng, tier, sid, traces):
             if rng.random() < 0.2:
                 c[0] += "=%d" % rng.randint(1, 3)
             if rng.random() < 0.4:
-                c[0] += "-%d" % rng.randint(1, 4)
+                used = [t[0].rsplit("-", 1)[1] for t in s["tokens"]
+                        if t[1] == "-NONE-" and "-" in t[0]
+                        and t[0].rsplit("-", 1)[1].isdigit()]
+                # mostly the index of some trace: fillers for the slash annotation
+                c[0] += "-%s" % (rng.choice(used) if used and rng.random() < 0.6
+                                 else rng.randint(1, 4))
             if rng.random() < 0.15:
                 c[0] += "'"                      # head marker, allowed after the indices
     return s
@@ -292,8 +297,10 @@ def gen_session(rng, tier, si):
                 params["keep"] = ",".join(rng.sample(TRACES, rng.randint(1, 3)))
             if rng.random() < 0.4:
                 params["keepcoindex"] = True
-            if rng.random() < 0.1:
+            if rng.random() < 0.2:
                 params["slash"] = True
+                if "keep" not in params and rng.random() < 0.7:
+                    params["keepall"] = True    # only kept traces are annotated
         if op == "punctuation_delete" and rng.random() < 0.5:
             params["quiet"] = True
         if op == "filter_by_length":
@@ -427,6 +434,31 @@ def judge_call(c, files, rec, st):
         b = [(t[0], t[1]) for t in got["tokens"] if t[0] != "-NONE-" and t[1] != "-NONE-"]
         if a != b:
             return cm.viol("C11/ptb_delete_traces/slash/other-tokens-changed", params=params)
+        # the annotation only appends "/<label of a filler>" to labels and may delete traces
+        # without filler (and what they leave empty): what remains is a pruned version of the
+        # tree expected without `slash`
+        if exp is not None:
+            st.probe("slash_annotation_judged")
+            from collections import Counter
+            want_tr = Counter(t[1] for t in exp["tokens"] if t[0] == "-NONE-")
+            got_tr = Counter(t[1] for t in got["tokens"] if t[0] == "-NONE-")
+            if got_tr - want_tr:
+                return cm.viol("C11/ptb_delete_traces/slash/trace-not-asked-for-remains",
+                               params=params, extra=sorted((got_tr - want_tr).elements()))
+            want_lab = Counter(c[0] for c in model.constituents(exp["root"]))
+            got_lab = Counter(c[0].split("/")[0] for c in model.constituents(got["root"]))
+            if got_lab - want_lab:
+                return cm.viol("C11/ptb_delete_traces/slash/labels-not-those-without-slash",
+                               params=params, extra=sorted((got_lab - want_lab).elements()))
+            fillers = set(strip_indices(c[0], False).split("-")[0].rstrip("'")
+                          for c in model.constituents(sent["root"]))
+            annots = set(x for c in model.constituents(got["root"])
+                         for x in c[0].split("/")[1:])
+            if annots:
+                st.probe("slash_annotation_present")
+            if annots - fillers:
+                return cm.viol("C11/ptb_delete_traces/slash/annotation-is-no-filler-label",
+                               params=params, extra=sorted(annots - fillers))
         return None
     e2 = model.clone(exp)
     for t in e2["tokens"]:
@@ -487,7 +519,8 @@ def execute(sc, sim):
                "warm_cache_same_file", "cache_switch_to_other_file", "call_after_failed_load",
                "failed_terminal_file_load", "out_of_range_or_index0_request",
                "other_sentence_ids_only", "punctuation_only_sentence", "keep_with_keepcoindex",
-               "tree_filtered_out", "two_sessions_interleaved")
+               "tree_filtered_out", "two_sessions_interleaved", "slash_annotation_judged",
+               "slash_annotation_present", "slash_annotation_rejected")
     spec = build_spec(sc)
     obs = sim.run(spec)
     st.add_obs(obs)
